@@ -1,7 +1,7 @@
 (* Model runner for C10/C11: the extracted disk model of the file store (Model/FileDisk.v) is run on
    the same histories / crash points as the real store; the verdict is the property oracle evaluated
-   on what the IMPLEMENTATION answered. ml/c10_run.ml is this file with the other model module. *)
-open C11_model
+   on what the IMPLEMENTATION answered. This file is generated from ml/c11_run.ml (sed: the model module name). *)
+open C10_model
 open Conv
 
 let split c s = if s = "" then [] else String.split_on_char c s
